@@ -121,7 +121,9 @@ def check(ctx):
                                 # the set after the element loop, or the entry's array before it (same thing: every element
                                 # is inserted or the decoder has failed)
                                 on_input = md.sym(recv) == src
-                                if (lv == ("field", res, "key_ops") or on_input) and not fn.cfg.in_loop(t[3][1])[1:]:
+                                # ... or the local set a helper builds and hands back to be stored in the field
+                                on_built = e.get("via_local") is not None and lv[0] == "local" and lv[1] == e["via_local"]
+                                if (lv == ("field", res, "key_ops") or on_input or on_built) and not fn.cfg.in_loop(t[3][1])[1:]:
                                     special[o["bb"]] = "err:empty-key-ops"
                     ok = ok and sorted(special.values()) == ["err:empty-key-ops", "err:repeated-key-op"]
                     det["set_rules"] = sorted(special.values())
@@ -143,7 +145,7 @@ def check(ctx):
             continue
         for c in o["conds"]:
             nb = normalize_bool_cond(c)
-            if nb and is_call(nb[0]) and nb[0][1].endswith("::eq") and nb[1] is True:
+            if nb and is_call(nb[0]) and ((nb[0][1].endswith("::eq") and nb[1] is True) or (nb[0][1].endswith("::ne") and nb[1] is False)):
                 bb = nb[0][3][1]
                 t = fn.blocks[bb]["term"]
                 lv = pv._borrowed_lvalue(t["args"][0], bb)
@@ -169,7 +171,8 @@ def check(ctx):
         special[kty_err["bb"]] = "err:kty-missing-or-reserved"
         # the Ok exit must be on the other edge of the same test
         ok_conds = [normalize_bool_cond(c) for c in md.ok_outcome["conds"]]
-        neg = any(c and is_call(c[0]) and c[0][1].endswith("::eq") and c[1] is False for c in ok_conds)
+        neg = any(c and is_call(c[0]) and ((c[0][1].endswith("::eq") and c[1] is False) or (c[0][1].endswith("::ne") and c[1] is True))
+                  for c in ok_conds)
         ctx.ob("R-kty", "ok-only-with-kty", neg, "Ok(key) is returned only on the `kty != reserved` edge", where=fn.span)
 
     # ---- R-3 census ------------------------------------------------------------------------------------------
